@@ -42,7 +42,14 @@ func execUnionExprUnion(context *exprContext, expr *grammar.Grammar) error {
 		return fmt.Errorf("cannot union non-NodeSet's")
 	}
 
-	context.result = unionCleanup(append(leftNodeSet, rightNodeSet...))
+	// Build the union in a new slice.  Appending to the left operand could
+	// write into spare capacity of a slice owned by the caller (a variable, or
+	// a sub-slice of an earlier result), and unionCleanup sorts in place.
+	union := make(NodeSet, 0, len(leftNodeSet)+len(rightNodeSet))
+	union = append(union, leftNodeSet...)
+	union = append(union, rightNodeSet...)
+
+	context.result = unionCleanup(union)
 	return nil
 }
 
